@@ -86,6 +86,12 @@ theorem HL_rec5 {p q : Handler → Bool} {tm : List Timed} (h : HL c) :
     HL { c with handlers := c.handlers.filter p, idHandlers := c.idHandlers.filter q, timed := tm } :=
   ⟨fun x hx => h.1 x (List.mem_filter.1 hx).1, fun x hx => h.2 x (List.mem_filter.1 hx).1⟩
 
+theorem HL_rec6 {id : Bytes} (h : HL c) :
+    HL { c with handlers := c.handlers.map fun (h : Handler) => { h with enabled := true },
+                idHandlers := c.idHandlers.map fun (h : Handler) =>
+                  if h.id = some id then { h with enabled := true } else h } :=
+  ⟨(HL_rec3 h).1, (HL_rec4 (id := id) h).2⟩
+
 theorem HL_triggerSmCallback (h : HL c) : HL (triggerSmCallback c) := h
 theorem HL_prepareReset {o} (h : HL c) : HL (prepareReset c o) := h
 theorem HL_notify {e} (h : HL c) : HL (notify c e) := by
@@ -683,7 +689,13 @@ theorem G_runSys_loud {k st nm} (hl : ¬ quiet st) (hk : okH (.sys k) nm = true)
   case bind => cases hk
   case session => cases hk
   case legacy => cases hk
-  case sm => exact G_handleSm_loud hl h
+  case sm =>
+    have := G_handleSm_loud (st := st) hl h
+    unfold runSys
+    dsimp only
+    first
+      | exact this
+      | exact pred_ite_fst (P := G) (fun _ => h) (fun _ => this)
   case componentHs =>
     unfold runSys
     dsimp only
@@ -818,15 +830,13 @@ theorem Pl_fireOne {st uid} (hl : ¬ quiet st) (h : Pl c) : Pl (fireOne st c uid
         · exact ⟨HL_rec1 hr.1, hr.2⟩
       · exact h
 
-/-- the handler phase of `handler_fire_stanza` -/
+/-- the handler phase of `handler_fire_stanza` (all stanza handlers were enabled before the id
+    phase; those added during the id phase are in the list but disabled, `fireOne` skips them) -/
 theorem G_handlerPhase {st} (c1 : Conn) (h : Pq a c1) :
-    G ((List.map (·.uid) (c1.handlers.map fun (h : Handler) => { h with enabled := true })).foldl (fireOne st)
-      { c1 with handlers := c1.handlers.map fun (h : Handler) => { h with enabled := true } }) := by
-  have h2 : Pq a { c1 with handlers := c1.handlers.map fun (h : Handler) => { h with enabled := true } } :=
-    ⟨h.1, HL_rec3 h.2.1, h.2.2.1, h.2.2.2⟩
+    G ((c1.handlers.map (·.uid)).foldl (fireOne st) c1) := by
   by_cases hq : quiet st
-  · exact (pred_foldl (P := Pq a) (fun c x hc => Pq_fireOne hq hc) _ h2).2.2.1
-  · exact (pred_foldl (P := Pl) (fun c x hc => Pl_fireOne hq hc) _ ⟨h2.2.1, h2.2.2.1⟩).2
+  · exact (pred_foldl (P := Pq a) (fun c x hc => Pq_fireOne hq hc) _ h).2.2.1
+  · exact (pred_foldl (P := Pl) (fun c x hc => Pl_fireOne hq hc) _ ⟨h.2.1, h.2.2.1⟩).2
 
 theorem G_fireStanza {st} (h : Pq a c) : G (fireStanza c st) := by
   unfold fireStanza
@@ -834,8 +844,8 @@ theorem G_fireStanza {st} (h : Pq a c) : G (fireStanza c st) := by
   refine G_handlerPhase (a := a) _ ?_
   split
   · refine pred_foldl (P := Pq a) (fun c x hc => Pq_fireIdOne hc) _ ?_
-    exact ⟨h.1, HL_rec4 h.2.1, h.2.2.1, h.2.2.2⟩
-  · exact h
+    exact ⟨h.1, HL_rec6 h.2.1, h.2.2.1, h.2.2.2⟩
+  · exact ⟨h.1, HL_rec3 h.2.1, h.2.2.1, h.2.2.2⟩
 
 /-! ### the combined invariant -/
 
